@@ -112,7 +112,7 @@ impl Prop for C14 {
         for p in ["left-end", "right-end", "interior-knot", "just-above-knot", "just-below-knot", "midpoint", "random"] {
             v.push(format!("point:{}", p));
         }
-        for s in ["repeated-interior-knot", "no-interior-knots", "m>=k", "m=k-1", "outside-support", "array-form", "python-layer", "scale:tiny-domain", "scale:huge-domain"] {
+        for s in ["repeated-interior-knot", "no-interior-knots", "m>=k", "m=k-1", "outside-support", "array-form", "python-layer", "dual-abscissa", "scale:tiny-domain", "scale:huge-domain"] {
             v.push(s.to_string());
         }
         v
@@ -239,6 +239,51 @@ impl Prop for C14 {
                     if bad {
                         ctx.violation("C14|array-form-length", json!({"k": k, "t": t, "i": i, "m": m, "returned": got.len(), "points": xs.len()}));
                         return;
+                    }
+                }
+            }
+        }
+        // the basis functions evaluated at a dual-number point (bspldnev_single_dual / _dual2, any derivative
+        // order): the real part is the float evaluator's m-th derivative, the sensitivities are the (m+1)-th and
+        // (m+2)-th derivatives (chain rule with a unit abscissa), zero beyond the order
+        {
+            use rateslib::dual::{Dual, Dual2, Gradient1, Gradient2};
+            let same = |a: f64, b: f64| a.to_bits() == b.to_bits() || a == b;
+            for (x, pcls) in pts.iter().take(6) {
+                let xd = Dual::new(*x, vec!["x".to_string()]);
+                let xd2 = Dual2::new(*x, vec!["x".to_string()]);
+                for i in 0..n {
+                    for m in 0..=k {
+                        let r = guarded(|| (rateslib::splines::bspldnev_single_dual(&xd, i, &k, &t, m, None), rateslib::splines::bspldnev_single_dual2(&xd2, i, &k, &t, m, None)));
+                        ctx.eval(2);
+                        ctx.asserted(2);
+                        ctx.class("dual-abscissa");
+                        let d0 = if m == 0 { bsplev_single_f64(x, i, &k, &t, None) } else { bspldnev_single_f64(x, i, &k, &t, m, None) };
+                        let d1 = bspldnev_single_f64(x, i, &k, &t, m + 1, None);
+                        let d2 = bspldnev_single_f64(x, i, &k, &t, m + 2, None);
+                        match r {
+                            Caught::Ok((a, b)) => {
+                                let ga = a.gradient1(vec!["x".to_string()]);
+                                let gb = b.gradient1(vec!["x".to_string()]);
+                                let hb = b.gradient2(vec!["x".to_string()]);
+                                let ok = same(a.real(), d0) && same(b.real(), d0) && same(ga[0], d1) && same(gb[0], d1) && (hb[[0, 0]] - d2).abs() <= 4.0 * f64::EPSILON * d2.abs() + 1e-300;
+                                if !ok {
+                                    ctx.violation(
+                                        &format!("C14|dual-abscissa|{}|m={}", pcls, m.min(3)),
+                                        json!({"case": case(*x, i, m), "point_class": pcls, "Dual (real, d/dx)": [a.real(), ga[0]], "Dual2 (real, d/dx, d2/dx2)": [b.real(), gb[0], hb[[0, 0]]], "float evaluator derivatives m, m+1, m+2": [d0, d1, d2]}),
+                                    );
+                                    return;
+                                }
+                            }
+                            Caught::Panic { loc, msg } => {
+                                if is_harness_location(&loc) {
+                                    ctx.harness_error(format!("{} {}", loc, msg));
+                                } else {
+                                    ctx.violation(&format!("C14|panic|dual-abscissa|{}", short_loc(&loc)), json!({"case": case(*x, i, m), "message": msg}));
+                                }
+                                return;
+                            }
+                        }
                     }
                 }
             }
